@@ -5,12 +5,53 @@ import Pycoin.Gen.HashTables
 /-!
 C19 — model of `pycoin/bloomfilter.py:murmur3(data, seed)` as it is written: Python unbounded
 integers, masks and shifts exactly where the code has them (every integer literal of the function
-comes from `Gen/HashTables.lean`, named by its role), a seed of any width and sign.
+is named by its role below), a seed of any width and sign.  The eleven arithmetic constants of the algorithm
+(`c1 c2`, the two rotations, `*5 + n`, the two `fmix` multipliers and three shifts) come from `Gen/HashTables.lean`,
+where the translator finds them among the module's literals by probing `murmur3()` itself; the remaining literals
+(byte masks and shifts of the little-endian load, the `0xFFFFFFFF` masks, the complementary right-shift counts of the
+rotation idiom, `& 0xFFFFFFFC`, `& 0x03`) are rendered here as the source has them and tied by the correspondence check.
 -/
 namespace Pycoin.Murmur3Py
 open Pycoin.Gen.HashTables
 
 abbrev M := Except PyErr
+
+/-! the integer literals of `murmur3`, by role, in source order -/
+def mm_c1 : Int := mmC1
+def mm_c2 : Int := mmC2
+def mm_roundMask : Int := 0xFFFFFFFC
+def mm_b0Mask : Int := 0xFF
+def mm_b1Mask : Int := 0xFF
+def mm_b1Shift : Int := 8
+def mm_b2Mask : Int := 0xFF
+def mm_b2Shift : Int := 16
+def mm_b3Shift : Int := 24
+def mm_kRotL : Int := mmR1
+def mm_kRotMask : Int := 0xFFFFFFFF
+def mm_kRotR : Int := 17
+def mm_hRotL : Int := mmR2
+def mm_hRotMask : Int := 0xFFFFFFFF
+def mm_hRotR : Int := 19
+def mm_hMul : Int := mmM
+def mm_hAdd : Int := mmN
+def mm_valMask : Int := 0x03
+def mm_t2Mask : Int := 0xFF
+def mm_t2Shift : Int := 16
+def mm_t1Mask : Int := 0xFF
+def mm_t1Shift : Int := 8
+def mm_t0Mask : Int := 0xFF
+def mm_tRotL : Int := mmR1
+def mm_tRotMask : Int := 0xFFFFFFFF
+def mm_tRotR : Int := 17
+def mm_f1Mask : Int := 0xFFFFFFFF
+def mm_f1Shift : Int := mmS1
+def mm_f1Mul : Int := mmF1
+def mm_f2Mask : Int := 0xFFFFFFFF
+def mm_f2Shift : Int := mmS2
+def mm_f2Mul : Int := mmF2
+def mm_f3Mask : Int := 0xFFFFFFFF
+def mm_f3Shift : Int := mmS3
+def mm_outMask : Int := 0xFFFFFFFF
 
 /-- `data[i]` -/
 def byteAt (data : Bytes) (i : Int) : M Int := do
